@@ -1,6 +1,6 @@
 From Coq Require Import ZArith List String Bool.
 Import ListNotations.
-From TD Require Import Lib.Sexp Model.C20_Apply Model.C20_Sched Model.C20_Lazy.
+From TD Require Import Lib.Sexp Model.C20_Apply Model.C20_Sched Model.C20_Lazy Model.C20_WriteBack.
 Open Scope string_scope.
 
 (* the user function of the correspondence run is the free term constructor: fn(key, item, args) = TFn key item args,
@@ -211,6 +211,27 @@ Definition enc_lres (r : lres term) : sexp :=
   | LRView _ m => SL [SA "view"; enc_meta m]
   end.
 
+(* ---------------------------------------------------------------- the in-place write-back (Model/C20_WriteBack.v) *)
+Definition dec_fret (s : sexp) : option (fret Z) :=
+  match s with
+  | SA "same" => Some FSame
+  | SA "none" => Some FNone
+  | SL [SA "fresh"; SZ v] => Some (FFresh v)
+  | SL [SA "mut"; SZ v] => Some (FMut v)
+  | SL [SA "mutnone"; SZ v] => Some (FMutNone v)
+  | _ => None
+  end.
+Definition dec_wb_item (s : sexp) : option (string * Z * fret Z) :=
+  match s with
+  | SL [SA k; SZ x; r] => option_map (fun r' => (k, x, r')) (dec_fret r)
+  | _ => None
+  end.
+Fixpoint wb_fn (items : list (string * Z * fret Z)) (k : string) (x : Z) : fret Z :=
+  match items with
+  | [] => FNone
+  | (k', _, r) :: rest => if String.eqb k k' then r else wb_fn rest k x
+  end.
+
 Definition dispatch (cmd : string) (args : list sexp) : option sexp :=
   match cmd, args with
   | "apply", [SA mode; os; self; others; out; names; con; prop; nones; pi] =>
@@ -250,6 +271,13 @@ Definition dispatch (cmd : string) (args : list sexp) : option sexp :=
           | _, _, _, _, _, _, _ => None
           end
       | _, _ => None
+      end
+  | "wb", [fast; copies; items] =>
+      match dec_bool fast, dec_bool copies, dec_list dec_wb_item items with
+      | Some fast, Some copies, Some items =>
+          let st := map (fun i => (fst (fst i), snd (fst i))) items in
+          Some (SL (map (fun kv => SL [SA (fst kv); SZ (snd kv)]) (apply_inplace Z fast copies (wb_fn items) st)))
+      | _, _, _ => None
       end
   | "ntasks", [os; con; self] =>
       match dec_opts os, dec_bool con, dec_t self with
